@@ -9,6 +9,10 @@ from ..engines import totality as T
 
 
 def run(ctx):
+    # language-level slips in the modules the property is anchored in (engine Y)
+    from ..engines import gotchas as GY
+    GY.run(ctx, ('rule_db.base', 'rule_db.forget', 'rule_db.forest', 'rule_db.abstract'))
+    ctx.floor("Y", 1)
     ctx.extra["explanation"] = (
         "static analysis (ast, no execution) of rule_db/base.py, rule_db/forget.py and every "
         "user of the two rule stores: every store key is an (int, tuple); the memory-saving "
